@@ -8,6 +8,7 @@ import Mahotas.Proofs.C18Shift
 import Mahotas.Proofs.C18Filter
 import Mahotas.Proofs.C18Order3
 import Mahotas.Proofs.C18Tensor
+import Mahotas.Proofs.C18Init
 import Mathlib.Data.Rat.Floor
 
 open Mahotas Mahotas.C18
@@ -413,6 +414,132 @@ theorem C18_zoom_coordinate_map {K : Type} [Field K] [LinearOrder K] [IsStrictOr
       linarith
     push_cast
     field_simp
+
+/-- **C18-T4 (what the two initialisations of the causal pass are).** `spline_filter1d` starts the causal
+recursion from `initTrunc` (lines longer than the cut `max = ⌈log 1e−15 / log|p|⌉`) or from `initFull` (shorter
+lines) — the polymorphic definitions `filterLine` runs. Over any field: (1) `initTrunc z mx s` is the geometric sum
+`Σ_{k<mx} z^k s[k]`; (2) `initFull z (z^(n−1)) n s` — the code's closed form
+`(s₀ + z^(n−1)s_{n−1} + Σ_{k=1}^{n−2} (z^k + z^(2n−2−k)) s_k) / (1 − z^(2n−2))`, accumulated as the loop does — is the
+**exact mirror-symmetric initial value** `MirrorInit`: the solution of `c0 = Σ_{k<P} z^k s̃[k] + z^P·c0`
+(`P = 2n − 2`, `s̃` the mirror extension), which is how `c0 = Σ_{k≥0} z^k s̃[k]` reads without infinite sums;
+(3) equivalently, `c0` is the value from which the causal recursion, run once around the mirrored period, returns
+to itself. -/
+theorem C18_initFull_is_mirror_init {K : Type} [Field K] (z : K) (hz : z ≠ 0) (n : Nat) (hn : 2 ≤ n)
+    (hP : 1 - z ^ (n - 1) * z ^ (n - 1) ≠ 0) (s : Nat → K) :
+    (∀ mx, 1 ≤ mx → initTrunc z mx s = geomSum z s mx) ∧
+    MirrorInit z n s (initFull z (z ^ (n - 1)) n s) ∧
+    (∀ c0, MirrorInit z n s c0 ↔ causal z c0 (mirrorExt n s) (2 * n - 2) = c0) :=
+  ⟨fun mx h => initTrunc_eq z mx h s, initFull_mirrorInit z hz n hn hP s,
+    fun c0 => mirrorInit_iff_steady z c0 n hn s⟩
+
+/-- **C18-T4 (the first sample, orders 2 and 3).** The gap of `C18_prefilter_inverts_partial`: if the causal pass
+starts from the exact mirror-symmetric initial value (`MirrorInit`, see `C18_initFull_is_mirror_init`: hypothesis
+stated explicitly; it is what the code computes on short lines), then for an exact root `z` of `z² + 6z + 1`
+(order 2) resp. `z² + 4z + 1` (order 3) the coefficients produced by `onePole` also reproduce sample 0, with the
+mirrored knot `c[−1] = c[1]`: `⅛c[1] + ¾c[0] + ⅛c[1] = f[0]` resp. `⅙c[1] + ⅔c[0] + ⅙c[1] = f[0]`. -/
+theorem C18_prefilter_first_sample {K : Type} [Field K] (z c0 : K) (n : Nat) (hn : 2 ≤ n)
+    (hz1 : z * z - 1 ≠ 0) (f : Nat → K) :
+    (z * z + 6 * z + 1 = 0 → (8 : K) ≠ 0 → MirrorInit z n (fun i => 8 * f i) c0 →
+      1 / 8 * onePole z c0 n (fun i => 8 * f i) 1 + 3 / 4 * onePole z c0 n (fun i => 8 * f i) 0
+        + 1 / 8 * onePole z c0 n (fun i => 8 * f i) 1 = f 0) ∧
+    (z * z + 4 * z + 1 = 0 → (6 : K) ≠ 0 → MirrorInit z n (fun i => 6 * f i) c0 →
+      1 / 6 * onePole z c0 n (fun i => 6 * f i) 1 + 2 / 3 * onePole z c0 n (fun i => 6 * f i) 0
+        + 1 / 6 * onePole z c0 n (fun i => 6 * f i) 1 = f 0) := by
+  constructor
+  · intro hz h8 hinit
+    have h2 : (2 : K) ≠ 0 := fun h => h8 (by linear_combination 4 * h)
+    have h4 : (4 : K) ≠ 0 := fun h => h8 (by linear_combination 2 * h)
+    have := onePole_first z 6 c0 hz hz1 n hn (fun i => 8 * f i) hinit
+    field_simp
+    linear_combination 4 * this
+  · intro hz h6 hinit
+    have h2 : (2 : K) ≠ 0 := fun h => h6 (by linear_combination 3 * h)
+    have h3 : (3 : K) ≠ 0 := fun h => h6 (by linear_combination 2 * h)
+    have := onePole_first z 4 c0 hz hz1 n hn (fun i => 6 * f i) hinit
+    field_simp
+    linear_combination 3 * this
+
+/-- **C18-T4 (`prefilter_inverts`, orders 2 and 3, short lines — every sample).** On the lines where the code uses
+its closed-form initialisation (`max ≥ len`: lines of at most 20 / 27 samples for orders 2 / 3 with the `1e−15` cut), in exact
+arithmetic with an exact pole (`z² + λz + 1 = 0`, `λ = 6` / `4`, `weight = 2 + λ`) and `pow(p, len−1) = z^(len−1)`:
+the coefficients `c = onePole z (initFull z (z^(n−1)) n (w·f)) n (w·f)` — exactly what `filterLine` computes —
+satisfy **all** `n` equations of "the B-spline expansion reproduces the samples" with mirror boundaries:
+`(c[k−1] + λ·c[k] + c[k+1]) / (2 + λ) = f[k]` for `1 ≤ k ≤ n−2`, `(2c[1] + λc[0]) / (2 + λ) = f[0]`,
+`(2c[n−2] + λc[n−1]) / (2 + λ) = f[n−1]`. (By `C18_integer_weights` these are the values `zoom_shift` returns at
+the integer coordinates.) What is not covered: the floating-point pole is only an approximate root; long lines use
+the truncated sum (`C18_prefilter_truncation_bound`). -/
+theorem C18_prefilter_inverts_short_lines {K : Type} [Field K] (z lam : K) (n : Nat) (hn : 2 ≤ n)
+    (hz : z * z + lam * z + 1 = 0) (hz1 : z * z - 1 ≠ 0) (hP : 1 - z ^ (n - 1) * z ^ (n - 1) ≠ 0)
+    (hw : (2 + lam : K) ≠ 0) (f : Nat → K) :
+    let s := fun i => (2 + lam) * f i
+    let c := onePole z (initFull z (z ^ (n - 1)) n s) n s
+    (1 - z) * (1 - 1 / z) = 2 + lam ∧
+    (2 * c 1 + lam * c 0) / (2 + lam) = f 0 ∧
+    (∀ k, 1 ≤ k → k + 2 ≤ n → (c (k - 1) + lam * c k + c (k + 1)) / (2 + lam) = f k) ∧
+    (2 * c (n - 2) + lam * c (n - 1)) / (2 + lam) = f (n - 1) := by
+  intro s c
+  have hz0 : z ≠ 0 := by
+    rintro rfl
+    simp at hz
+  have hinit := initFull_mirrorInit z hz0 n hn hP s
+  refine ⟨poleWeight_eq z lam hz, ?_, ?_, ?_⟩
+  · rw [div_eq_iff hw]
+    have := onePole_first z lam _ hz hz1 n hn s hinit
+    simp only [c, s] at this ⊢
+    linear_combination this
+  · intro k h1 h2
+    rw [div_eq_iff hw]
+    have := onePole_interior z lam (initFull z (z ^ (n - 1)) n s) hz n s k h1 h2
+    simp only [c, s] at this ⊢
+    linear_combination this
+  · rw [div_eq_iff hw]
+    have := onePole_last z lam (initFull z (z ^ (n - 1)) n s) hz hz1 n hn s
+    simp only [c, s] at this ⊢
+    linear_combination this
+
+/-- **C18-T4 (order 4: the first two samples).** The gap of `C18_prefilter_inverts_order4_partial`: if both
+causal passes start from their exact mirror-symmetric initial values (`MirrorInit`; on short lines the code's
+`initFull`, by `C18_initFull_is_mirror_init`), then with exact poles (`λ₁ + λ₂ = 76`, `λ₁λ₂ = 228`) samples 0 and 1
+are reproduced as well, with the mirrored knots `c[−1] = c[1]`, `c[−2] = c[2]`:
+`(c[2] + 76c[1] + 230c[0] + 76c[1] + c[2])/384 = f[0]`, `(c[1] + 76c[0] + 230c[1] + 76c[2] + c[3])/384 = f[1]`. -/
+theorem C18_prefilter_order4_first_samples {K : Type} [Field K] (z1 z2 l1 l2 c1 c2 : K) (n : Nat) (hn : 4 ≤ n)
+    (h1 : z1 * z1 + l1 * z1 + 1 = 0) (h2 : z2 * z2 + l2 * z2 + 1 = 0)
+    (hz1 : z1 * z1 - 1 ≠ 0) (hz2 : z2 * z2 - 1 ≠ 0) (hs : l1 + l2 = 76) (hp : l1 * l2 = 228)
+    (h384 : (384 : K) ≠ 0) (f : Nat → K)
+    (hi1 : MirrorInit z1 n (fun i => 384 * f i) c1)
+    (hi2 : MirrorInit z2 n (onePole z1 c1 n (fun i => 384 * f i)) c2) :
+    let c := onePole z2 c2 n (onePole z1 c1 n (fun i => 384 * f i))
+    (1 / 384 * c 2 + 19 / 96 * c 1 + 115 / 192 * c 0 + 19 / 96 * c 1 + 1 / 384 * c 2 = f 0) ∧
+    (1 / 384 * c 1 + 19 / 96 * c 0 + 115 / 192 * c 1 + 19 / 96 * c 2 + 1 / 384 * c 3 = f 1) := by
+  intro c
+  simp only [c]
+  have h96 : (96 : K) ≠ 0 := fun e => h384 (by linear_combination 4 * e)
+  have h192 : (192 : K) ≠ 0 := fun e => h384 (by linear_combination 2 * e)
+  obtain ⟨k0, k1⟩ := twoPole_first z1 z2 l1 l2 c1 c2 h1 h2 hz1 hz2 n hn (fun i => 384 * f i) hi1 hi2
+  simp only [hs, hp] at k0 k1
+  constructor
+  · field_simp
+    linear_combination 18432 * k0
+  · field_simp
+    linear_combination 18432 * k1
+
+/-- **C18-T4 (long lines: the truncated initial sum).** Over an ordered field, for `|z| < 1` and a line with
+`|s| ≤ M`: the value `initTrunc z mx s = Σ_{k<mx} z^k s[k]` from which the code starts the causal pass on lines
+longer than the cut (`mx ≤ n`) differs from the exact mirror-symmetric initial value `c0` (`MirrorInit`) by at most
+`|z|^mx · M / (1 − |z|)` — with the code's `mx = ⌈log 1e−15 / log|z|⌉`, `|z|^mx ≤ 1e−15`. -/
+theorem C18_prefilter_truncation_bound {K : Type} [Field K] [LinearOrder K] [IsStrictOrderedRing K]
+    (z : K) (hz : |z| < 1) (n : Nat) (hn : 2 ≤ n) (s : Nat → K) (M : K) (hs : ∀ k, k < n → |s k| ≤ M)
+    (c0 : K) (hinit : MirrorInit z n s c0) (mx : Nat) (h1 : 1 ≤ mx) (h2 : mx ≤ n) :
+    |c0 - initTrunc z mx s| ≤ |z| ^ mx * M / (1 - |z|) :=
+  mirrorInit_trunc_bound z hz n hn s M hs c0 hinit mx h1 h2
+
+/-- non-vacuity of `MirrorInit` / `initFull`: over ℚ, `z = 1/2`, the line `(1, 2, 3)` (mirror period `1 2 3 2`):
+the code's closed form gives `c0 = (1 + 2/2 + 3/4 + 2/8) / (1 − 1/16) = 16/5`, and it is the fixed point -/
+example : initFull (1 / 2 : ℚ) ((1 / 2) ^ (3 - 1)) 3 (fun k => ((k + 1 : Nat) : ℚ)) = 16 / 5 ∧
+    MirrorInit (1 / 2 : ℚ) 3 (fun k => ((k + 1 : Nat) : ℚ)) (16 / 5) := by
+  constructor
+  · norm_num [initFull, stepFull, List.range_succ]
+  · norm_num [MirrorInit, geomSum, mirrorExt]
 
 /-- a 2×2 image over ℚ for the non-vacuity example below -/
 def c18Im22 : Img ℚ := { shape := [2, 2], data := #[0, 1, 2, 3] }
